@@ -100,6 +100,11 @@ class FeedServer(threading.Thread):
         self.stop_ev.set()
 
 
+# client processes that ended by a SIGTERM nobody in the check sent: the run says nothing about the program and ends as a
+# tool error (exit 2), not as a verdict (Report.finish)
+INTERFERENCE = []
+
+
 def run_1090(bindir, script, settle=0.5):
     """returns dict(printed=[...], alive=0/1, exit=code or -1, panic=0/1)"""
     srv = FeedServer(script)
@@ -114,6 +119,8 @@ def run_1090(bindir, script, settle=0.5):
     if alive:
         p.kill()
     p.wait(timeout=10)
+    if p.returncode == -signal.SIGTERM:
+        INTERFERENCE.append(f"1090 pid {p.pid}")
     fo.seek(0); fe.seek(0)
     out, err = fo.read(), fe.read()
     fo.close(); fe.close()
@@ -259,6 +266,9 @@ class Radar:
         if pid == 0:
             return None
         self.status = os.waitstatus_to_exitcode(st)
+        if self.status == -signal.SIGTERM:
+            # no driver sends SIGTERM and the clients never raise it: somebody else on this machine did (`pkill radar`)
+            INTERFERENCE.append(f"radar pid {self.pid}")
         return self.status
 
     def wait_exit(self, timeout=5.0):
